@@ -1,8 +1,10 @@
 (* C18 - Low-disk guard: threshold semantics are exact and monotone.
    This file contains only the property theorems; each is closed by [exact] of a lemma proved
    elsewhere and followed by Print Assumptions. *)
-From Coq Require Import QArith Qround.
-From ZenoV Require Import Disk.Threshold Disk.ThresholdProofs.
+From Coq Require Import QArith Qround Reals.
+From Flocq Require Import Core Binary Bits.
+From ZenoV Require Import Disk.Threshold Disk.ThresholdProofs Disk.FloatExact Disk.FloatExactProofs.
+Import BinarySingleNaN(mode_NE).
 Open Scope Z_scope.
 
 (* Exactness.  For every volume size, free space and operator setting for which Go's
@@ -52,3 +54,51 @@ Theorem C18_watcher_alternates : forall p obs,
   alternating (negb p) (snd (ticks p obs)) = true.
 Proof. exact watcher_alternates_lemma. Qed.
 Print Assumptions C18_watcher_alternates.
+
+(* ---- IEEE-754: the float computation of checkThreshold, operation by operation in Flocq's binary64
+   (Disk/FloatExact.v), is the integer model [refuse] on every volume size, every free-space value and
+   EVERY binary64 operator value (NaN, infinities, subnormals, negative, overflowing included): both
+   sides give the same verdict, and are undefined ([None]: Go leaves uint64(f) to the implementation)
+   on exactly the same inputs.  With C18_refuse_exact: the real float code decides free < floor(tau).
+   These four theorems rest on Flocq's specification of binary64 over the real numbers; Print
+   Assumptions lists the standard library's axioms of R (ClassicalDedekindReals.sig_forall_dec,
+   sig_not_dec, FunctionalExtensionality.functional_extensionality_dep, Classical_Prop.classic). *)
+Theorem C18_float_exact : forall (total free : Z) (ms : binary64),
+  0 <= total ->
+  refuse_float total free ms = refuse total free (fl_of_b64 ms).
+Proof. exact refuse_float_exact_lemma. Qed.
+Print Assumptions C18_float_exact.
+
+(* The default rule never rounds: for a volume of at most 256 GiB, float64(total) is total, the quotient
+   by float64(256*GB) and the product with float64(50*GB) are the exact real numbers, = total*25/128. *)
+Theorem C18_float_default_exact : forall total : Z,
+  0 <= total <= 256 * GiB ->
+  let q := b64_div mode_NE (b64_of_Z total) (b64_of_Z (256 * GiB)) in
+  let p := b64_mult mode_NE (b64_of_Z (50 * GiB)) q in
+  B2R 53 1024 (b64_of_Z total) = IZR total
+  /\ B2R 53 1024 q = (IZR total / IZR (256 * GiB))%R
+  /\ is_finite 53 1024 p = true
+  /\ B2R 53 1024 p = (IZR (50 * GiB) * (IZR total / IZR (256 * GiB)))%R
+  /\ B2R 53 1024 p = (IZR (total * 25) / IZR 128)%R.
+Proof. exact default_value_lemma. Qed.
+Print Assumptions C18_float_default_exact.
+
+(* The operator rule never rounds either: for every finite positive binary64 ms (subnormals included),
+   ms * float64(GB) is the exact real product ms * 2^30 when that is below 2^1024, and +Inf otherwise. *)
+Theorem C18_float_operator_exact :
+  forall (m : positive) (e : Z) (Hb : SpecFloat.bounded 53 1024 m e = true),
+  let ms := B754_finite 53 1024 false m e Hb in
+  let p := b64_mult mode_NE ms (b64_of_Z GiB) in
+  (B2R 53 1024 ms * bpow radix2 30 < bpow radix2 1024)%R
+    /\ is_finite 53 1024 p = true /\ B2R 53 1024 p = (B2R 53 1024 ms * bpow radix2 30)%R
+  \/ (bpow radix2 1024 <= B2R 53 1024 ms * bpow radix2 30)%R /\ p = B754_infinity 53 1024 false.
+Proof. exact operator_product_lemma. Qed.
+Print Assumptions C18_float_operator_exact.
+
+(* The harness bridge: every (sign, m, e) decomposition of a finite binary64 x is rebuilt into x itself. *)
+Theorem C18_float_bridge : forall (x : binary64) (neg : bool) (m e : Z),
+  is_finite 53 1024 x = true -> 0 <= m ->
+  B2R 53 1024 x = F2R (Float radix2 (cond_Zopp neg m) e) -> Bsign 53 1024 x = neg ->
+  b64_of_fl (FFin neg m e) = x.
+Proof. exact b64_of_fl_value_lemma. Qed.
+Print Assumptions C18_float_bridge.
